@@ -153,3 +153,82 @@ def check_no_effects_in_debug_assert(run, ctx, rule):
     if 'effect_then_debug_assert' in names:
         run.bad(rule, 'fail-closed/selftest/negative', 'fail-closed: the negative twin effect_then_debug_assert was flagged')
     return n
+
+
+def check_enum_equality(run, ctx, rule):
+    """the specialiser folds `policy == X` / `scope == X` by comparing variants.  That is only right if the PartialEq impls of
+    EvictionPolicy and CacheScope are variant equality, so the impls themselves are evaluated here for every pair of variants
+    (a hand-written `match (self, other)` with one wrong arm makes `TLRU == TLRU` false and silently disables whatever the
+    library guards with that test)."""
+    n = 0
+    for adt in (N.POLICY, N.SCOPE):
+        a = ctx.core.adts.get(adt)
+        if a is None:
+            run.bad(rule, '%s/fail-closed' % adt.rsplit('::', 1)[-1], 'fail-closed: %s not found' % adt)
+            continue
+        nv = len(a['variants'])
+        names = [v['name'] for v in a['variants']]
+        bodies = [b for b in ctx.core.bodies.values() if (b.js.get('impl_trait') or '').endswith('cmp::PartialEq') and b.impl_self == adt and b.name.endswith('::eq')]
+        short = adt.rsplit('::', 1)[-1]
+        if len(bodies) != 1:
+            run.bad(rule, '%s/fail-closed' % short, 'fail-closed: expected one PartialEq::eq for %s, found %d' % (adt, len(bodies)))
+            continue
+        body = bodies[0]
+        ex = Expr(body)
+        n += 1
+        if any(callee_name(t).endswith('discriminant_value') for _, t in body.calls()):
+            # derive(PartialEq) on a field-less enum: discriminant_value(self) == discriminant_value(other)
+            eqs = [st for bl in body.blocks for st in bl['stmts'] if st['k'] == 'assign' and st['rv'].get('bin') == 'Eq']
+            if len(eqs) == 1 and not any(body.term(i)['k'] == 'switch' for i in range(body.n)):
+                run.ok(rule, short, 'derived: equality of discriminants')
+            else:
+                run.bad(rule, '%s/unrecognised-form' % short, 'PartialEq for %s calls discriminant_value but is not the derived comparison' % adt, site=body.name)
+            continue
+        wrong = []
+        for i in range(nv):
+            for j in range(nv):
+                b = 0
+                ret = None
+                steps = 0
+                while steps < 200:
+                    steps += 1
+                    for st in body.blocks[b]['stmts']:
+                        if st['k'] == 'assign' and st['dst']['l'] == 0 and not st['dst'].get('proj') and 'use' in st['rv'] and 'const' in st['rv']['use']:
+                            ret = st['rv']['use']['const'].get('int')
+                    t = body.term(b)
+                    if t['k'] == 'return':
+                        break
+                    if t['k'] == 'goto':
+                        b = t['target']
+                        continue
+                    if t['k'] == 'switch':
+                        e = ex.operand(t['discr'])
+                        v = None
+                        if e[0] == 'discr' and strip_casts(e[1]) == ('param', 1):
+                            v = i
+                        elif e[0] == 'discr' and strip_casts(e[1]) == ('param', 2):
+                            v = j
+                        if v is None:
+                            ret = 'unrecognised'
+                            break
+                        nxt = None
+                        for val, tb in t['targets']:
+                            if val == v:
+                                nxt = tb
+                        b = nxt if nxt is not None else t['otherwise']
+                        continue
+                    ret = 'unrecognised'
+                    break
+                if ret == 'unrecognised' or ret is None:
+                    wrong.append(('?', names[i], names[j]))
+                elif bool(ret) != (i == j):
+                    wrong.append((bool(ret), names[i], names[j]))
+        if any(w[0] == '?' for w in wrong):
+            run.bad(rule, '%s/unrecognised-form' % short, 'cannot evaluate PartialEq::eq of %s for every pair of variants' % adt, site=body.name)
+        elif wrong:
+            run.bad(rule, '%s/not-variant-equality' % short, '`==` on %s is not equality of variants: %s' % (adt, ', '.join('%s == %s is %s' % (x, y, str(r).lower()) for (r, x, y) in wrong[:4])),
+                    site=body.name, oracle='a == b iff same variant')
+        else:
+            run.ok(rule, short, '%d x %d pairs: equal iff same variant' % (nv, nv))
+    run.require(rule, 'enum equality impls', n, 2)
+    return n
